@@ -1,4 +1,4 @@
-#![allow(unused_variables, dead_code, non_snake_case, non_upper_case_globals, non_camel_case_types, unreachable_code, clippy::all)]
+#![allow(unused_parens, unused_variables, dead_code, non_snake_case, non_upper_case_globals, non_camel_case_types, unreachable_code, clippy::all)]
 #[cfg(not(feature = "thorough"))]
 include!("generated_quick.rs");
 #[cfg(feature = "thorough")]
